@@ -314,6 +314,8 @@ TraceReturn ==
                     "F8_singleton_unbiased", \A k \in 1..K : Ev.o2final[k] # "ok" => (k - 1) \in singleton)
        /\ Clause("C05", "per_point_values_are_log_densities_under_own_cluster",
                  \A k \in 1..K : Ev.o7final[k] \in {"ok", "inc", "empty"})
+       /\ Clause("C05", "result_lists_the_log_density_of_every_labelled_point_and_aggregates_exactly_those",
+                 Hdr.scripted \/ Ev.o7result \in {"ok", "inc"})
        /\ Clause("C16", "bic_matches_definition", OkInc(Ev.bicOk))
        /\ Clause("C16", "bic_finite_when_mrfs_positive_definite",
                  (\A k \in 1..K : Ev.o2final[k] = "ok") => Ev.bicFinite)
@@ -381,6 +383,18 @@ TraceRaise ==
                       Ev.type = "TypeError" /\ Ev.names_other_entry_point /\ pc = "call")
           ELSE IF f.kind = "invalid_argument"
           THEN Clause("C20", "invalid_arguments_are_refused_with_an_exception", Ev.type # "")
+          ELSE IF f.kind = "scripted"
+          \* a scripted run (harness/scripted.py) may stop only where the model says the loop cannot go on:
+          \* no cluster holds 2m points when a refill is due (C08: otherwise repopulation must return), or the
+          \* script's own initial labelling leaves a cluster empty in round 0 (the library refuses that).
+          \* Any other exception is outside every listed property: it is reported as a machinery problem.
+          THEN IF pc = "top" /\ round > 0 /\ RepopAllowed
+               THEN /\ Clause("C08", "donor_shortage_error_only_when_no_cluster_holds_2m",
+                              MustFail(Sizes(labels), cfg.K, cfg.m))
+                    /\ Clause("C20", "runtime_error_names_the_donor_shortage",
+                              Ev.type = "RuntimeError" /\ Ev.names_donor_shortage)
+               ELSE Clause("MACH", "scripted_run_raised_where_the_model_has_no_failing_step",
+                           pc = "top" /\ round = 0 /\ \E k \in Cls : members[k] = {})
           ELSE Clause("C20", "unexpected_exception", FALSE)
        /\ Clause("C20", "no_worker_process_left_behind", Ev.children = 0)
        /\ Clause("C20", "call_does_not_hang", Ev.elapsedMs <= Hdr.timeLimitMs)
